@@ -415,7 +415,42 @@ def near_special(part, which):
     part.nstates(1)
 
 
+def integer_columns(part, which):
+    """
+    coordinates that are whole numbers for EVERY atom in one column (all atoms on the plane x = 0, z = 1, ...): the text then holds
+    integers in that column, and the file must still read back to the same asymmetric unit
+    """
+    from chmpy.crystal import Crystal
+
+    number, choice, cell = {"P1": (1, "", (6.1, 7.3, 8.9, 83.0, 99.0, 107.0)), "P-1": (2, "", (6.1, 7.3, 8.9, 83.0, 99.0, 107.0)),
+                            "Cmce": (64, "", (4.38, 10.5, 3.31, 90.0, 90.0, 90.0)), "P21/c": (14, "b1", (6.1, 7.3, 8.9, 90.0, 99.0, 90.0))}[which]
+    base = np.array([[0.21, 0.10168, 0.08056], [0.37, 0.31, 0.72], [0.55, 0.64, 0.38]])
+    for col, val in itertools.product((0, 1, 2), (0.0, 1.0, -1.0, 2.0)):
+        for natoms in (1, 3):
+            frac = base[:natoms].copy()
+            frac[:, col] = val
+            for fmt in ("cif", "res"):
+                part.ev()
+                part.tr()
+                case = {"kind": "intcol", "which": which}
+                try:
+                    c = xtal.make_crystal(number, choice, cell, ["P", "O", "C"][:natoms], frac, labels=["P1", "O1", "C1"][:natoms], titl="intcol")
+                    new = Crystal.from_cif_string(c.to_cif_string()) if fmt == "cif" else Crystal.from_shelx_string(c.to_shelx_string())
+                    got = np.asarray(new.asymmetric_unit.positions, dtype=float)
+                except Exception as e:
+                    part.fail("integer-column:raise:%s" % fmt, "%s round trip of %s with column %s = %g for every atom raised %r" % (fmt, which, "xyz"[col], val, e), case)
+                    continue
+                if got.shape != frac.shape or np.abs(got - frac).max() > 5e-13:
+                    part.fail("integer-column:%s:%s" % (fmt, "xyz"[col]), "%s round trip of %s with %s = %g for every atom: coordinates %s read back as %s"
+                              % (fmt, which, "xyz"[col], val, frac.tolist(), got.tolist() if got.shape == frac.shape else got.shape), case)
+                part.outcome(("intcol", fmt, col, val, natoms))
+    part.nstates(1)
+
+
 def worker(part, rows, tier):
+    if rows and isinstance(rows[0], str) and rows[0].startswith("intcol:"):
+        integer_columns(part, rows[0].split(":", 1)[1])
+        return
     if rows and isinstance(rows[0], str):
         for which in rows:
             near_special(part, which)
@@ -450,11 +485,14 @@ def run(ctx):
                        "space group compared by International Tables number and operation set (not by choice label)"]
     order = sorted(table, key=lambda r: -len(r["symops"]))
     ctx.bounds["near_special_structures"] = "P-1 / P2/m / R3 with a partially occupied site inside the merge distance of its own images x {POSCAR first, after a query, after molecules} x {string, file}"
-    ctx.pmap(worker, list(chunked(order, 4)) + [["P-1"], ["P2/m"], ["R3"]], tier=ctx.tier)
+    ctx.pmap(worker, list(chunked(order, 4)) + [["P-1"], ["P2/m"], ["R3"]] + [["intcol:" + w] for w in ("P1", "P-1", "Cmce", "P21/c")], tier=ctx.tier)
 
 
 def replay(ctx, case):
     table = symm.load_table()
+    if case.get("kind") == "intcol":
+        integer_columns(ctx, case["which"])
+        return
     if case.get("kind") == "near_special":
         near_special(ctx, case["which"])
         return
